@@ -171,10 +171,15 @@ def canonical_param_names(fx):
     gone = [k_ for k_ in table if k_ not in by_key and k_ in sigs]
     for k_ in unknown:
         sg_ = sig_of(fx.bodies[by_key[k_][0]])
-        cands_ = [g_ for g_ in gone if scope(g_) == scope(k_) and sigs[g_] == sg_]
+        cands_ = [g_ for g_ in gone if scope(g_) == scope(k_) and sigs[g_][:2] == sg_]
         rivals_ = [u_ for u_ in unknown if u_ != k_ and scope(u_) == scope(k_) and sig_of(fx.bodies[by_key[u_][0]]) == sg_]
         if len(cands_) == 1 and not rivals_:
             renamed_fn[k_] = cands_[0]
+        elif cands_ and len(cands_) == len(rivals_) + 1:
+            # several functions of one signature renamed at once (`parse_until` / `parse_until_no_newline`): paired in declaration order
+            mine_ = sorted(rivals_ + [k_], key=lambda u_: line_of(fx.bodies[by_key[u_][0]].get("sp") or "") or 0)
+            theirs_ = sorted(cands_, key=lambda g_: (sigs[g_][2] if len(sigs[g_]) > 2 else 0))
+            renamed_fn[k_] = theirs_[mine_.index(k_)]
     for k, ps in by_key.items():
         want = table.get(k)
         if want is None and k in renamed_fn:
